@@ -3,9 +3,11 @@
    (Proofs.v): RMAX = 2^30 sat/kw, WMAX = 2^32, BMAX = 2^62 sat.
 
    ff_premises maxr conf relay so :=
-     0 <= maxr <= RMAX /\ 0 <= conf < WMAX /\ start_ok maxr relay so
-   start_ok maxr relay (Some s) := 0 <= s <= maxr      (caller-supplied start)
-   start_ok maxr relay None     := 0 <= relay <= maxr /\ 0 < maxr  (estimator path)
+     0 <= maxr <= RMAX /\ 0 <= conf < WMAX /\ start_ok relay so
+   start_ok relay (Some s) := 0 <= s       (ANY caller-supplied start)
+   start_ok relay None     := 0 <= relay   (estimator path, any answers)
+   (lnd commit 1567bc7 caps the start at the ceiling; before it these theorems
+   needed start <= ceiling and were refuted otherwise, see notes/C18.md)
    frun f ops = the fee function after any sequence of Increment (FInc) /
    IncreaseFeeRate c (FConf c) calls, errors leaving the state unchanged. *)
 From Coq Require Import ZArith List Bool Permutation Sorted.
@@ -47,10 +49,25 @@ Proof. exact c18_reaches_ceiling. Qed.
 
 (* estimator path: start is at least the relay floor whenever floor <= ceiling *)
 Theorem C18_floor : forall maxr conf relay ans f0,
-  0 <= maxr <= RMAX -> 1 < conf < WMAX -> 0 <= relay <= maxr -> 0 < maxr ->
+  0 <= maxr <= RMAX -> 1 < conf < WMAX -> 0 <= relay <= maxr ->
   new_ff64 maxr conf relay ans None = Ok f0 ->
   relay <= ff_cur f0 <= maxr.
 Proof. exact c18_floor. Qed.
+
+(* a supplied start above the ceiling is capped: the initial rate is the ceiling *)
+Theorem C18_start_clamped : forall maxr conf relay ans s f0,
+  1 < conf -> maxr < s ->
+  new_ff64 maxr conf relay ans (Some s) = Ok f0 ->
+  ff_cur f0 = maxr /\ ff_start f0 = maxr /\ ff_end f0 = maxr.
+Proof. exact c18_start_clamped. Qed.
+
+(* estimator path for ANY relay fee / answer / conf target (incl. >= 1008 and
+   ceiling 0): the start lies between min(relay, ceiling) and the ceiling *)
+Theorem C18_estimated_start_clamped : forall maxr conf relay ans f0,
+  0 <= maxr <= RMAX -> 1 < conf < WMAX -> 0 <= relay ->
+  new_ff64 maxr conf relay ans None = Ok f0 ->
+  Z.min relay maxr <= ff_cur f0 <= maxr.
+Proof. exact c18_estimated_start_clamped. Qed.
 
 (* every tx that passes createAndCheckTx's budget guard: fee <= budget, spends
    exactly the requested inputs, pays exactly in - out, reproduces the required
@@ -67,19 +84,10 @@ Proof. exact c18_budget. Qed.
 Theorem C18_published_trace_ok :
   forall ins weight floor budget maxrate h0 dl relay ans so vs bl,
   0 <= budget <= BMAX -> 1 <= weight < WMAX -> 0 <= maxrate <= RMAX ->
-  start_ok (max_fee_rate_allowed64 budget weight maxrate) relay so ->
+  start_ok relay so ->
   let tr := pub_trace64 ins weight floor budget maxrate h0 dl relay ans so vs bl in
   Forall (entry_ok ins floor budget maxrate) tr /\ Sorted Z.le (map fst tr).
 Proof. exact c18_published_trace_ok. Qed.
-
-(* without start_ok the cap and monotonicity FAIL on the faithful model:
-   maxFeeRate 500, confTarget 10, StartingFeeRate Some 1000 *)
-Theorem C18_start_above_end_refuted :
-  exists maxr conf relay ans s f0,
-    new_ff64 maxr conf relay ans (Some s) = Ok f0 /\
-    maxr < ff_cur f0 /\
-    ff_cur (fstep64 f0 FInc) < ff_cur f0.
-Proof. exact c18_start_above_end_refuted. Qed.
 
 (* BudgetInputSet top-up: AddWalletInputs keeps the requested inputs, only
    appends zero-budget wallet inputs (smallest first), leaves Budget()
